@@ -271,7 +271,8 @@ def r15_3(ctx, rep, roles):
                     items_l = [s for s in T.subterms(listeners_src) if s[0] == "proj" and s[2] == F("<tuple>", "1")]
                     items_p = [s for s in T.subterms(pref) if s[0] == "proj" and s[2] == F("<tuple>", "0")]
                     def item_id(t):
-                        nx = [x for x in T.subterms(t) if x[0] == "call" and x[1].endswith("::next") and "Range" in x[1] and not x[1].startswith("havoc:")]
+                        nx = [x for x in T.subterms(t) if x[0] == "call" and x[1].endswith("::next") and not x[1].startswith("havoc:") and (
+                            "Range" in x[1] or any(y[0] == "call" and sym.strip_all_generics(y[1]).split("::")[-1] == "range" for y in T.subterms(x)))]
                         return (nx[0][1], nx[0][3]) if nx else None
                     ok = bool(items_l) and bool(items_p) and item_id(items_l[0][1]) is not None and item_id(items_l[0][1]) == item_id(items_p[0][1])
                     ok = ok and sk[0][2][0] in (("ptr", ("S", "ev"), ()), ("obj", ("S", "ev"))) or ok and any(x == ("obj", ("S", "ev")) for x in T.subterms(T.resolve_locals(eng, row.store, sk[0][2][0])))
